@@ -202,8 +202,23 @@ def h_step(word, T):
         ev = lambda e: model.eval(e, model_completion=True)
         d = ev(depth).as_long()
         vals = [ev(z3.Select(st0, z3.BitVecVal(k, 64))).as_signed_long() for k in range(d)]
-        src = ' '.join(str(v) for v in vals) + ' ' + word
-        status, out, log = run_program(T, src)
+        big = any(not (-2 ** 31 <= v < 2 ** 31) for v in vals)
+        maxd = MAXD
+        if big:
+            # literals are stored in 32-bit bytecode cells: wider cells are built arithmetically (needs 3 spare stack slots)
+            if z3.is_true(ev(over)):
+                return False, 'counterexample needs 64-bit cells and a full stack: not expressible as a Forth program', dict(cells=vals)
+            maxd = MAXD + 3
+
+            def push(v):
+                if -2 ** 31 <= v < 2 ** 31:
+                    return str(v)
+                hi, mid, lo = v >> 32, (v >> 16) & 0xFFFF, v & 0xFFFF
+                return '%d 65536 * 65536 * %d 65536 * + %d +' % (hi, mid, lo)
+            src = ' '.join(push(v) for v in vals) + ' ' + word
+        else:
+            src = ' '.join(str(v) for v in vals) + ' ' + word
+        status, out, log = run_program(T, src, maxd)
         exp_err = ev(expected['err']).as_long()
         payload = dict(program=src, machine_bits=T, native=out, status=status, log=log)
         if status != 'ok':
